@@ -51,7 +51,7 @@ CLAIMED = {
  'C18': ('Machine-checked theorems (Lean 4, reals) about an executable model of the fsr helpers: plane contains its three points; mirror negates exactly the local z coordinate of any frame '
          '(anywhere in space) and is an involution; midpoint has the mean position and its relative rotation squares to the total relative rotation (Rodrigues additivity); lookAt keeps the position and is a '
          'proper rotation with local z at the target (outside the vertical set); distance is the Euclidean metric; closeLinearGap advances by exactly |delta| along the line; IKPath has the requested length, '
-         'end points and constant increments; sphere samplers are unit; angleMod changes an angle by a multiple of 2pi. twistToGoal exponentiates onto the goal for every pair of rigid transforms whose relative rotation angle is 0 or at least the cut-off, half turns included (from exp6(log6 T) = T). closeArcGap advances by exactly |delta| in the library\'s own arc distance, along goal - origin (step rotation zero or outside the cut-off band and below pi). chainJacobian is the JacobianSpace recursion and is tied to that model function (so the C06 column and derivative theorems cover it); numericalJacobian and rotationFromVector are decided on the implementation only (sampled). '
+         'end points and constant increments; sphere samplers are unit; angleMod changes an angle by a multiple of 2pi, lands in [-2pi, 2pi] and is idempotent. twistToGoal exponentiates onto the goal for every pair of rigid transforms whose relative rotation angle is 0 or at least the cut-off, half turns included (from exp6(log6 T) = T). closeArcGap advances by exactly |delta| in the library\'s own arc distance, along goal - origin (step rotation zero or outside the cut-off band and below pi). chainJacobian is the JacobianSpace recursion and is tied to that model function (so the C06 column and derivative theorems cover it); numericalJacobian and rotationFromVector are decided on the implementation only (sampled). '
          'Model tied by a differential run; every relation also evaluated on the real functions.',
          'Trusted: Lean kernel, Mathlib, harness generators; optimiser-based helpers not modelled; rounding outside.',
          'Lean 4 proofs on a hand-written model (sympy-found linear_combination certificates) + differential correspondence + on-function falsifier',
